@@ -359,3 +359,18 @@ Example C03_concrete_derived :
   /\ c03_dsps_case [D_bins [1%nat]; D_add [[[1; 1]; [1; 1]]]; D_mul 2; D_patches [1; 0]%nat]
                    [[[9; 9]; [9; 9]]; [[1; 2]; [3; 4]]] [28] [[4]; [10]] = 0%nat.
 Proof. vm_compute. repeat split; reflexivity. Qed.
+
+(* ---------------- integer counts in floating-point cells (Model/Mantissa.v) ---------------- *)
+From Verif Require Mantissa MantissaP.
+(* counts, and the delete-one totals formed from them, are exact in float64 cells as long as the total stays below 2^53 ... *)
+Theorem C03_loo_exact_in_float64 : forall total involved : Z,
+  (0 <= involved <= total)%Z -> (total < 2 ^ 53)%Z ->
+  Mantissa.keep_bits 53 (Mantissa.loo (Mantissa.keep_bits 53 total) (Mantissa.keep_bits 53 involved)) = (total - involved)%Z.
+Proof. exact MantissaP.loo_exact_in_float64. Qed.
+Print Assumptions C03_loo_exact_in_float64.
+(* ... a 24-bit significand (float32 cells) loses the count 2^24 + 1 and a delete-one total with it *)
+Theorem C03_float32_cells_refuted :
+  exists total involved : Z, (0 <= involved <= total)%Z /\ (total < 2 ^ 53)%Z /\
+    Mantissa.loo (Mantissa.keep_bits 24 total) (Mantissa.keep_bits 24 involved) <> (total - involved)%Z.
+Proof. exact MantissaP.float32_loo_refuted. Qed.
+Print Assumptions C03_float32_cells_refuted.
